@@ -191,9 +191,10 @@ func startVictim(realBinary bool, maxV, hosts, conns int, useTLS bool) (*victim,
 			v.tls = &tls.Config{InsecureSkipVerify: true}
 		}
 		v.cmd = exec.Command(bin, args...)
+		v.cmd.SysProcAttr = &syscall.SysProcAttr{Pdeathsig: syscall.SIGKILL} // never outlive the test process
 		v.cmd.Env = []string{"PATH=/usr/bin:/bin", "HOME=/tmp"}
 		v.cmd.Stdout, v.cmd.Stderr = v.out.File(), v.out.File()
-		if err := v.cmd.Start(); err != nil {
+		if err := startChild(v.cmd); err != nil {
 			cl.Close()
 			return nil, err
 		}
@@ -223,9 +224,10 @@ func startVictim(realBinary bool, maxV, hosts, conns int, useTLS bool) (*victim,
 		}
 		v.cmd = exec.Command(bin, "-contact", cl.HostIP(0), "-port", fmt.Sprint(cl.Port), "-maxversion", fmt.Sprint(maxV), "-version", fmt.Sprint(ctl), "-numconns", fmt.Sprint(conns),
 			"-heartbeat", "40ms", "-idle", "1s", "-connecttimeout", "500ms")
+		v.cmd.SysProcAttr = &syscall.SysProcAttr{Pdeathsig: syscall.SIGKILL} // never outlive the test process
 		v.cmd.Stderr = v.out.File()
 		stdout, _ := v.cmd.StdoutPipe()
-		if err := v.cmd.Start(); err != nil {
+		if err := startChild(v.cmd); err != nil {
 			cl.Close()
 			return nil, err
 		}
